@@ -8,7 +8,6 @@ package c04
 
 import (
 	"fmt"
-	"os" // DEVONLY
 	"reflect"
 	"regexp"
 	"sort"
@@ -19,6 +18,7 @@ import (
 	"github.com/robertkrimen/otto/ast"
 	"github.com/robertkrimen/otto/parser"
 
+	"verif/mc/checks/c03"
 	"verif/mc/engine"
 	"verif/mc/ref/syntax"
 )
@@ -135,6 +135,19 @@ func explain(src string) string {
 	return ""
 }
 
+// mine is r.MineKey for case keys: a replay key carries the sub-check suffix
+// ("#reject", "#span:...") of the mismatch, the case key is the part before it.
+func mine(r *engine.Run, key string) bool {
+	if r.ReplayKey != "" {
+		rk := r.ReplayKey
+		if i := strings.IndexByte(rk, '#'); i >= 0 {
+			rk = rk[:i]
+		}
+		return rk == key
+	}
+	return r.Mine()
+}
+
 // parseResult is what one guarded call of parser.ParseFile gave.
 type parseResult struct {
 	prog     *ast.Program
@@ -194,11 +207,6 @@ func (h *harness) mismatch(m engine.Mismatch) {
 		h.classes[cls] = c
 	}
 	c.n++
-	if dbg := os.Getenv("C04_DEBUG"); dbg != "" { // DEVONLY
-		f, _ := os.OpenFile(dbg, os.O_APPEND|os.O_CREATE|os.O_WRONLY, 0o644) // DEVONLY
-		fmt.Fprintf(f, "%s\t%q\t%s\t%s\n", cls, m.Input, m.Observed, m.Note) // DEVONLY
-		f.Close()                                                            // DEVONLY
-	} // DEVONLY
 	h.r.Mismatch(m)
 }
 
@@ -285,9 +293,11 @@ func firstDiff(a, b string) string {
 // one executes one case: all four oracles.
 func (h *harness) one(key, src string) {
 	r := h.r
+	// The watchdog window covers parsing and, for rejected text, the run on the
+	// runtime: neither may hang.
 	r.Begin(key)
+	defer r.End()
 	res := guardedParse(src)
-	r.End()
 	nontrivial := false
 	outcome := ""
 	switch {
@@ -295,7 +305,7 @@ func (h *harness) one(key, src string) {
 		outcome = "panic"
 		h.mismatch(engine.Mismatch{Key: key + "#total", Input: src, Expected: "ParseFile returns", Observed: "panic: " + res.panicVal})
 	case res.err != nil:
-		outcome = "reject"
+		outcome = "reject: " + res.err.Error()
 		h.stats.rejected++
 		nontrivial = h.positions(key, src, res.err)
 		h.noEffect(key, src)
@@ -321,13 +331,23 @@ func (h *harness) one(key, src string) {
 		h.explain = expl
 		// (d) well-formed tree
 		outcome += h.wellFormed(key, src, res.prog)
+		if res.prog != nil {
+			outcome += " " + c03.Convert(res.prog).Dump()
+		}
 	}
 	r.Eval(nontrivial)
 	r.Tree(1, 1) // every enumerated string is a node of the prefix/edit tree and is executed
 	r.Outcome(outcome)
 	if r.WantSample() && nontrivial {
-		r.Sample(fmt.Sprintf("%q => %s", src, outcome))
+		r.Sample(fmt.Sprintf("%q => %s", src, clip(outcome, 140)))
 	}
+}
+
+func clip(s string, n int) string {
+	if len(s) > n {
+		return s[:n] + "..."
+	}
+	return s
 }
 
 // lineStarts: offsets at which lines start, line terminators per ES5 7.3
